@@ -380,8 +380,11 @@ def rule_literal(ctx, px):
         env = {}
         for st in path.stmts:
             if isinstance(st, ast.Assign) and len(st.targets) == 1 and isinstance(st.targets[0], ast.Name):
-                env[st.targets[0].id] = st.value
+                env[st.targets[0].id] = symstr._Bind({k: v for k, v in env.items() if k not in params}).visit(__import__("copy").deepcopy(st.value))
+            elif isinstance(st, ast.AugAssign) and isinstance(st.target, ast.Name) and isinstance(st.op, ast.Add) and st.target.id in env:
+                env[st.target.id] = ast.BinOp(left=env[st.target.id], op=ast.Add(), right=st.value)     # s += x  on this path
         alts = symstr.sym(px, f, r.value, _bound={k: v for k, v in env.items() if k not in params})
+        alts = [(c, p_) for c, p_ in alts if not any((e == "False" and pol) or (e == "True" and not pol) for e, pol in c)]
         rets.append((kind, terms, [symstr.render(p_) for _c, p_ in alts], [c for c, _p in alts], r))
     kinds = {k for k, *_ in rets}
     ok = {"BooleanType", "IntegerType", "FloatType"} <= kinds
@@ -399,12 +402,58 @@ def rule_literal(ctx, px):
             is_min = any(_is_min_term(e, pol, val, ty) for e, pol in terms)
             if is_min:
                 n_min += 1
-                ok = shown == [f"({{{val} + 1}}{SUFFIX} - 1{SUFFIX})"]
-                ctx.ob(R, cm.rel, f"{f.short} [int, most negative 64-bit value] :: spelled (value + 1) - 1 with the type's suffix on both literals", ok, f"{shown}", r.lineno)
-            else:
-                ok = shown == [f"{{{val}}}{SUFFIX}"]
-                ctx.ob(R, cm.rel, f"{f.short} [int] :: decimal value, U exactly for unsigned, L above 16 bits, LL above 32 bits", ok,
-                       "" if ok else f"rendered as {shown}: the literal's type is narrower than the constant or signedness is lost", r.lineno)
+            good, why = True, ""
+            for sh, ac in zip(shown, conds):
+                facts = terms + list(ac)
+                m = re.fullmatch(r"\(\{" + re.escape(val) + r" \+ 1\}(?P<a>.*) - 1(?P<b>.*)\)", sh) if is_min else re.fullmatch(r"\{" + re.escape(val) + r"\}(?P<a>.*)", sh)
+                if m is None or (is_min and m.group("a") != m.group("b")):
+                    good, why = False, f"rendered as {sh}"
+                    break
+                sfx = m.group("a")
+                if sfx == SUFFIX:
+                    continue
+                if not re.fullmatch(r"[UL]*", sfx):
+                    good, why = False, f"suffix `{sfx}` is neither the symbolic table nor a literal"
+                    break
+                uns = next((pol for e, pol in facts if e == f"isinstance({ty}, pydsdl.UnsignedIntegerType)"), None)
+                if uns is None:
+                    uns = next((not pol for e, pol in facts if e == f"isinstance({ty}, pydsdl.SignedIntegerType)"), None)
+                lo, hi = 0, 10 ** 9        # bit_length in (lo, hi]
+                for e, pol in facts:
+                    try:
+                        node = ast.parse(e, mode="eval").body
+                    except SyntaxError:
+                        continue
+                    if isinstance(node, ast.Compare) and len(node.ops) == 1:
+                        l_, r_ = ast.unparse(node.left), ast.unparse(node.comparators[0])
+                        op = type(node.ops[0])
+                        if r_ == f"{ty}.bit_length" and l_.isdigit():
+                            l_, r_ = r_, l_
+                            op = {ast.Lt: ast.Gt, ast.Gt: ast.Lt, ast.LtE: ast.GtE, ast.GtE: ast.LtE}.get(op, op)
+                        if l_ == f"{ty}.bit_length" and r_.isdigit():
+                            k = int(r_)
+                            says = {ast.Gt: ("gt", k), ast.GtE: ("gt", k - 1), ast.LtE: ("le", k), ast.Lt: ("le", k - 1)}.get(op)
+                            if says:
+                                if not pol:
+                                    says = ("le", says[1]) if says[0] == "gt" else ("gt", says[1])
+                                if says[0] == "gt":
+                                    lo = max(lo, says[1])
+                                else:
+                                    hi = min(hi, says[1])
+                width = "LL" if lo >= 32 else ("L" if lo >= 16 and hi <= 32 else ("" if hi <= 16 else None))
+                if is_min and width is None and lo < 32:
+                    width = None
+                if uns is None or width is None:
+                    good, why = False, f"literal suffix `{sfx}` on a path that does not fix signedness / width class ({facts})"
+                    break
+                want = ("U" if uns else "") + width
+                if sfx != want:
+                    good, why = False, f"suffix `{sfx}` where the type needs `{want}`"
+                    break
+            label = "[int, most negative 64-bit value] :: spelled (value + 1) - 1 with the type's suffix on both literals" if is_min else \
+                "[int] :: decimal value, U exactly for unsigned, L above 16 bits, LL above 32 bits"
+            ctx.ob(R, cm.rel, f"{f.short} {label}", good and bool(shown),
+                   "" if good else why + ": the literal's type is narrower than the constant, or signedness is lost", r.lineno)
         elif kind == "FloatType":
             src = " ".join(shown)
             whole = any(pol and e.replace(" ", "") == f"{val}.denominator==1" for e, pol in terms)
